@@ -431,6 +431,14 @@ func accepted(tm *desc.Msg, data []byte) (string, bool) {
 	if e1 == nil || e2 == nil {
 		return "OK", true
 	}
+	// the decoder configured by hand, without a Validator: the integrity check does not depend on it
+	// (a panic on the missing Validator comes after the check and is not an acceptance)
+	for _, strict := range []bool{true, false} {
+		var e3 error
+		if p3 := guarded(func() { e3 = encoding.DefaultUnmarshaller{Strict: strict}.Unmarshal(tm.Build(), data) }); p3 == "" && e3 == nil {
+			return "OK", true
+		}
+	}
 	return "ERR", false
 }
 
